@@ -4,4 +4,4 @@ import sdp_common
 
 
 def run(ctx):
-    return sdp_common.run_sdp(ctx, "C07", ['default','fallback'], 150, 4000, ['SameLength','SameKindAndMid','UnusableRejectedInPlace'])
+    return sdp_common.run_sdp(ctx, "C07", ['default', 'fallback', 'novideoB'], 150, 4000, ['SameLength','SameKindAndMid','UnusableRejectedInPlace'])
